@@ -8,7 +8,8 @@ Traces == Doc.traces
 TChains == Doc.chains
 TGrid == { <<g[1], g[2], g[3]>> : g \in ToSet(Doc.grid) }
 TBundle == Doc.bundle
-NoDev == [noWrap |-> FALSE, noOverlapTest |-> FALSE]
+NoDev == [noWrap |-> FALSE, noOverlapTest |-> FALSE, neighboursExempt |-> FALSE]
+TClosed == ToSet(Doc.closed)
 ASSUME TLCSet(1, {}) /\ TLCSet(2, [t \in 1..Len(Traces) |-> 0])
 Evs == Traces[tid]
 Ev == Evs[l]
